@@ -28,10 +28,10 @@ RUNTIME = {
             ('random', 'abort', 4000, 'trace'), ('random', 'forever', 4000, 'trace'),
             ('random', 'nesting', 4000, 'trace'), ('sweep', 'window', 3, 'trace'),
             ('sweep', 'phasew', 2, 'trace')],
-    'C04': [('sweep', 'cube', 4, 'trace'), ('random', 'abort', 12000, 'trace'),
+    'C04': [('random', 'cwin', 3000, 'trace'), ('sweep', 'cube', 4, 'trace'), ('random', 'abort', 12000, 'trace'),
             ('random', 'generic', 6000, 'trace'), ('random', 'nesting', 6000, 'trace'),
             ('random', 'ties', 4000, 'trace')],
-    'C05': [('sweep', 'gap', 6, 'trace'), ('random', 'vwin', 2000, 'trace'), ('random', 'big', 1500, 'trace'), ('random', 'abort', 16000, 'trace'), ('random', 'windows', 4000, 'trace'),
+    'C05': [('random', 'cwin', 3000, 'trace'), ('sweep', 'gap', 6, 'trace'), ('random', 'vwin', 2000, 'trace'), ('random', 'big', 1500, 'trace'), ('random', 'abort', 16000, 'trace'), ('random', 'windows', 4000, 'trace'),
             ('random', 'nesting', 5000, 'trace'), ('sweep', 'phase', 2, 'trace'),
             ('sweep', 'cube', 2, 'trace')],
     'C06': [('sweep', 'gap', 6, 'c06'), ('random', 'vwin', 2000, 'c06'), ('random', 'windows', 8000, 'c06'), ('random', 'generic', 5000, 'c06'),
@@ -47,7 +47,7 @@ RUNTIME = {
     'C09': [('random', 'forever', 16000, 'trace'), ('random', 'generic', 5000, 'trace'),
             ('random', 'nesting', 4000, 'trace'), ('sweep', 'phase', 2, 'trace'),
             ('sweep', 'tie', 4, 'trace')],
-    'C10': [('random', 'nesting', 10000, 'trace'), ('sweep', 'cube', 3, 'trace'),
+    'C10': [('random', 'cwin', 6000, 'trace'), ('random', 'nesting', 10000, 'trace'), ('sweep', 'cube', 3, 'trace'),
             ('random', 'nesting', 8000, 'twin'), ('random', 'generic', 4000, 'twin'),
             ('random', 'ties', 3000, 'twin')],
     'C11': [('sweep', 'gap', 6, 'trace'), ('random', 'vwin', 2000, 'trace'), ('sweep', 'extcancel', 2, 'trace'), ('random', 'big', 1500, 'trace'), ('sweep', 'phase', 3, 'trace'), ('sweep', 'phasew', 3, 'trace'),
